@@ -705,7 +705,7 @@ func runC06(args []string) {
 
 	// (1) full step-rule runs over the small-init part of the grid, both coolants
 	reps := 1
-	iters := 40
+	iters := 25
 	if thorough {
 		reps, iters = 12, 120
 	}
@@ -724,7 +724,7 @@ func runC06(args []string) {
 		}
 	}
 	// (2) random parameters off the grid
-	nrand := 30
+	nrand := 24
 	if thorough {
 		nrand = 600
 	}
@@ -750,7 +750,7 @@ func runC06(args []string) {
 		for _, mn := range mins {
 			for _, f := range factors {
 				for ki, k := range kinds {
-					n := 1500
+					n := 800
 					if thorough {
 						n = 5000
 					}
